@@ -140,16 +140,18 @@ Proof.
   cbn [negb orb]. rewrite Hc, Hcs. reflexivity.
 Qed.
 
-(* ---- X/28 and M/29 packets that keep the default designation only touch the recorded triplets ---- *)
-Definition tkey0 (o : option N) : Prop := match o with Some t => triplet_key t = 0 | None => True end.
-(* the character decoder while the stream is being read: no page parsed yet, recorded designations all default *)
-Definition cdn (d : cdec) : Prop := cd_last d = None /\ tkey0 (cd_x28 d) /\ tkey0 (cd_m29 d) /\ cd_c d = cd_c cdec0.
+(* ---- X/28 and M/29 designation packets only touch the recorded triplets ---- *)
+(* the character decoder while the stream is being read: no page parsed yet, the designations on record are st *)
+Definition cdst (d : cdec) (st : dstate) : Prop :=
+  cd_last d = None /\ cd_x28 d = fst st /\ cd_m29 d = snd st /\ cd_c d = cd_c cdec0.
 
-Lemma neutral_step mag0 pn0 u t cd cur done recv : mag0 <> 0 -> cdn cd -> neutral_unit mag0 u = true ->
-  exists cd', cdn cd' /\ parse_unit (snd u) (fst u) t (mkPbuf cd cur done mag0 pn0 recv) = Ok (mkPbuf cd' cur done mag0 pn0 recv).
+Lemma desig_step mag0 pn0 u t cd cur done (recv : bool) st : mag0 <> 0 -> cdst cd st -> desig_ok mag0 u = true ->
+  exists cd', cdst cd' (if recv then desig_recv mag0 st u else desig_idle mag0 st u)
+              /\ parse_unit (snd u) (fst u) t (mkPbuf cd cur done mag0 pn0 recv) = Ok (mkPbuf cd' cur done mag0 pn0 recv).
 Proof.
-  intros H0 (Hl & Hx & Hm & Hc) Hb. destruct u as [id i]. cbn [fst snd]. rewrite parse_unit_addr. unfold neutral_unit in Hb.
-  destruct (unit_addr (id, i)) as [[[mag pkt] p]|]; [|discriminate].
+  intros H0 (Hl & Hx & Hm & Hc) Hb. unfold desig_recv, desig_idle. rewrite Hb. unfold desig_of.
+  destruct u as [id i]. cbn [fst snd]. rewrite parse_unit_addr. unfold desig_ok in Hb.
+  destruct (unit_addr (id, i)) as [[[mag pkt] p]|]; [|discriminate]. cbn [fst snd].
   repeat (apply andb_true_iff in Hb; destruct Hb as [Hb ?]).
   match goal with H : negb (Nat.ltb (length p) 1) = true |- _ => apply negb_true_iff in H; rename H into L1 end.
   match goal with H : match ham84_dec _ with _ => _ end = true |- _ => rename H into Hd end.
@@ -157,7 +159,6 @@ Proof.
   apply N.eqb_eq in Hb. subst mag.
   destruct (ham84_dec (nth 0 p 0)) as [dc|] eqn:D; [|discriminate].
   repeat (apply andb_true_iff in Hd; destruct Hd as [Hd ?]).
-  match goal with H : (triplet_key _ =? 0) = true |- _ => apply N.eqb_eq in H; rename H into Hkey end.
   match goal with H : negb (Nat.ltb (length (tl p)) 3) = true |- _ => apply negb_true_iff in H; rename H into L3 end.
   match goal with H : negb ((pkt =? 28) && _) = true |- _ => apply negb_true_iff in H; rename H into Hfmt end.
   assert (Hdc : negb (dc =? 0) && negb (dc =? 4) = false) by (destruct (dc =? 0), (dc =? 4); cbn in Hd |- *; congruence).
@@ -169,21 +170,74 @@ Proof.
   assert (Hp25 : (pkt <=? 25) = false) by (apply orb_true_iff in Hk; destruct Hk as [E|E]; apply N.eqb_eq in E; subst; reflexivity).
   assert (Hp26 : (pkt =? 26) = false) by (apply orb_true_iff in Hk; destruct Hk as [E|E]; apply N.eqb_eq in E; subst; reflexivity).
   rewrite Hp0, Hp25, Hp26, N.eqb_refl, !andb_false_r, L1. rewrite nth_byte_at, ham84_is_spec, D. cbn [andb].
+  set (tr := triplet_of (tl p)) in *.
   (* the two setters, with no page parsed yet *)
-  assert (SX : exists cd', cdn cd' /\ set_x28 cd (triplet_of (tl p)) = Ok cd').
-  { unfold set_x28. destruct (match cd_x28 cd with Some t0 => negb (t0 =? triplet_of (tl p)) | None => true end).
-    - unfold update_charset. rewrite Hl. eexists. split; [|reflexivity]. repeat split; cbn [cd_last cd_x28 cd_m29 cd_c]; assumption.
-    - exists cd. split; [repeat split; assumption | reflexivity]. }
-  assert (SM : exists cd', cdn cd' /\ set_m29 cd (triplet_of (tl p)) = Ok cd').
-  { unfold set_m29. destruct (match cd_m29 cd with Some t0 => negb (t0 =? triplet_of (tl p)) | None => true end).
-    - unfold update_charset. rewrite Hl. eexists. split; [|reflexivity]. repeat split; cbn [cd_last cd_x28 cd_m29 cd_c]; assumption.
-    - exists cd. split; [repeat split; assumption | reflexivity]. }
+  assert (SX : exists cd', cdst cd' (Some tr, snd st) /\ set_x28 cd tr = Ok cd').
+  { unfold set_x28. destruct (cd_x28 cd) as [t0|] eqn:X.
+    - destruct (N.eqb_spec t0 tr) as [->|Hne]; cbn [negb].
+      + exists cd. split; [repeat split; cbn [fst snd]; assumption | reflexivity].
+      + unfold update_charset. rewrite Hl. eexists. split; [|reflexivity]. repeat split; cbn [cd_last cd_x28 cd_m29 cd_c fst snd]; assumption.
+    - unfold update_charset. rewrite Hl. eexists. split; [|reflexivity]. repeat split; cbn [cd_last cd_x28 cd_m29 cd_c fst snd]; assumption. }
+  assert (SM : exists cd', cdst cd' (fst st, Some tr) /\ set_m29 cd tr = Ok cd').
+  { unfold set_m29. destruct (cd_m29 cd) as [t0|] eqn:X.
+    - destruct (N.eqb_spec t0 tr) as [->|Hne]; cbn [negb].
+      + exists cd. split; [repeat split; cbn [fst snd]; assumption | reflexivity].
+      + unfold update_charset. rewrite Hl. eexists. split; [|reflexivity]. repeat split; cbn [cd_last cd_x28 cd_m29 cd_c fst snd]; assumption.
+    - unfold update_charset. rewrite Hl. eexists. split; [|reflexivity]. repeat split; cbn [cd_last cd_x28 cd_m29 cd_c fst snd]; assumption. }
   destruct SX as (cx & Hcx & Ex). destruct SM as (cm & Hcm & Em).
   apply orb_true_iff in Hk. destruct Hk as [E|E]; apply N.eqb_eq in E; subst pkt; cbn [N.eqb Pos.eqb andb].
   - destruct recv; cbn [andb].
     + rewrite P. cbn [pb_cd N.eqb Pos.eqb]. rewrite Ex. cbn [bind]. exists cx. split; [exact Hcx | reflexivity].
     + exists cd. split; [repeat split; assumption | reflexivity].
   - destruct recv; cbn [andb]; rewrite P; cbn [pb_cd N.eqb Pos.eqb]; rewrite Em; cbn [bind]; exists cm; (split; [exact Hcm | reflexivity]).
+Qed.
+
+(* units of the other classes are no designation packets *)
+Lemma benign_no_desig mag0 pn0 u : benign mag0 pn0 u = true -> desig_ok mag0 u = false.
+Proof.
+  unfold benign, desig_ok. destruct (unit_addr u) as [[[mag pkt] p]|]; [|reflexivity]. intros H.
+  destruct (mag =? mag0) eqn:Em; [|reflexivity]. cbn [andb].
+  destruct (N.eqb_spec pkt 28) as [->|N28]; [|destruct (N.eqb_spec pkt 29) as [->|N29]; [|reflexivity]].
+  - cbn [N.eqb Pos.eqb N.leb N.compare Pos.compare Pos.compare_cont orb negb] in H |- *. unfold triplet_inert in H. cbn [orb andb].
+    destruct (Nat.ltb (length p) 1); [reflexivity|]. cbn [orb negb andb] in H |- *.
+    destruct (ham84_dec (nth 0 p 0)) as [dc|]; [|reflexivity]. unfold triplet_of.
+    destruct (negb (dc =? 0) && negb (dc =? 4)) eqn:Edc.
+    + destruct (dc =? 0), (dc =? 4); cbn in Edc |- *; try discriminate; reflexivity.
+    + cbn [orb] in H. destruct (Nat.ltb (length (tl p)) 3); [rewrite andb_false_r; reflexivity|]. cbn [orb negb] in H.
+      cbn [N.eqb Pos.eqb andb] in H. 
+      assert (Hlow : N.land (N.lor (N.lor (N.shiftl (nth 2 (tl p) 0) 16) (N.shiftl (nth 1 (tl p) 0) 8)) (nth 0 (tl p) 0)) 15 = N.land (nth 0 (tl p) 0) 15).
+      { apply N.bits_inj. intros k. rewrite !N.land_spec, !N.lor_spec. destruct (N.ltb_spec k 4) as [Hk4|Hk4].
+        - rewrite (N.shiftl_spec_low _ 16 k) by lia. rewrite (N.shiftl_spec_low _ 8 k) by lia. reflexivity.
+        - replace (N.testbit 15 k) with false; [rewrite !andb_false_r; reflexivity|]. symmetry. change 15 with (N.ones 4). apply N.ones_spec_high. lia. }
+      rewrite Hlow, H. cbn [N.eqb Pos.eqb andb negb]. rewrite !andb_false_r. reflexivity.
+  - cbn [N.eqb Pos.eqb N.leb N.compare Pos.compare Pos.compare_cont orb negb] in H |- *. unfold triplet_inert in H. cbn [orb andb].
+    destruct (Nat.ltb (length p) 1); [reflexivity|]. cbn [orb negb andb] in H |- *.
+    destruct (ham84_dec (nth 0 p 0)) as [dc|]; [|reflexivity].
+    destruct (negb (dc =? 0) && negb (dc =? 4)) eqn:Edc.
+    + destruct (dc =? 0), (dc =? 4); cbn in Edc |- *; try discriminate; reflexivity.
+    + cbn [orb] in H. destruct (Nat.ltb (length (tl p)) 3); [rewrite andb_false_r; reflexivity|]. cbn [orb negb] in H. cbn [N.eqb Pos.eqb andb] in H. discriminate.
+Qed.
+Lemma row_no_desig mag0 row cells u : is_our_row mag0 row cells u = true -> desig_ok mag0 u = false.
+Proof.
+  unfold is_our_row, desig_ok. destruct (unit_addr u) as [[[mag pkt] p]|]; [|reflexivity]. intros H.
+  repeat (apply andb_true_iff in H; destruct H as [H ?]).
+  match goal with X : (pkt <=? 25) = true |- _ => apply N.leb_le in X end.
+  destruct (N.eqb_spec pkt 28); [lia|]. destruct (N.eqb_spec pkt 29); [lia|]. rewrite andb_false_r. reflexivity.
+Qed.
+(* while our page is not being received a unit of the "cannot matter" class leaves the record alone *)
+Lemma dead_desig_idle mag0 pn0 st u : dead_ok mag0 pn0 u = true -> desig_idle mag0 st u = st.
+Proof.
+  unfold desig_idle, desig_of, dead_ok, desig_ok. destruct (unit_addr u) as [[[mag pkt] p]|]; [|reflexivity]. intros H. cbn [fst snd].
+  destruct (N.eqb_spec pkt 28) as [->|N28].
+  - match goal with |- (if ?c then _ else _) = _ => destruct c; reflexivity end.
+  - destruct (N.eqb_spec pkt 29) as [->|N29].
+    + cbn [N.eqb Pos.eqb] in H. destruct (mag =? mag0) eqn:Em; [|reflexivity]. cbn [negb orb andb] in H |- *.
+      unfold triplet_inert in H. destruct (Nat.ltb (length p) 1); [reflexivity|]. cbn [orb negb andb] in H |- *.
+      destruct (ham84_dec (nth 0 p 0)) as [dc|]; [|reflexivity].
+      destruct (negb (dc =? 0) && negb (dc =? 4)) eqn:Edc.
+      * destruct (dc =? 0), (dc =? 4); cbn in Edc |- *; try discriminate; reflexivity.
+      * cbn [orb] in H. destruct (Nat.ltb (length (tl p)) 3); [rewrite andb_false_r; reflexivity|]. cbn [orb negb N.eqb Pos.eqb andb] in H. discriminate.
+    + destruct (mag =? mag0); cbn [orb andb]; reflexivity.
 Qed.
 
 (* ---- the done list is write-only: a prefix on it commutes with every unit ---- *)
